@@ -185,7 +185,7 @@ def replay_case(pid, cfg, path):
         print(json.dumps({k: v for k, v in rp.items() if k != "log_tail"}, indent=1)[:3000])
         print("to re-run against the current tree: VERIF_SEED=%s ./check %s --tier %s" % (rp.get("seed"), pid, rp.get("tier")))
         return 1
-    ok, out = V.build_ocaml(cfg["ocaml"])
+    ok, out = V.build_ocaml(cfg["ocaml"], cfg.get("coq_targets") or ["Check/%s.vo" % pid])
     d = os.path.join(V.BUILD, "replay-%s-%d" % (pid, os.getpid()))
     os.makedirs(d, exist_ok=True)
     try:
@@ -206,7 +206,7 @@ def run_tie(pid, cfg, tier, seed, replay, problems, notes):
     shutil.rmtree(rundir, ignore_errors=True)
     os.makedirs(rundir)
     try:
-        ok, out = V.build_ocaml(cfg["ocaml"]) if cfg.get("ocaml") else (True, "")
+        ok, out = V.build_ocaml(cfg["ocaml"], cfg.get("coq_targets") or ["Check/%s.vo" % pid]) if cfg.get("ocaml") else (True, "")
         if not ok:
             problems.append(("tie", "extraction / OCaml driver build failed", {"broken": "ocaml build", "log_tail": out[-3000:]}))
             return cov
